@@ -288,6 +288,15 @@ func init() {
 		return &Val{T: n, Typ: types.Typ[types.Float64], KnownLen: -1}
 	})
 
+	reg([]string{"(time.Duration).Seconds"}, nil, func(e *Eng, fr *Frame, c *ssa.CallCommon, args []*Val, st *State, g string, pos token.Pos) *Val {
+		n := e.sc.define("seconds", "Real", sx("/", sx("to_real", args[0].T), "1000000000.0"), "(time.Duration).Seconds (exact, floats as reals)")
+		return &Val{T: n, Typ: types.Typ[types.Float64], KnownLen: -1}
+	})
+	reg([]string{"(time.Duration).Milliseconds"}, nil, func(e *Eng, fr *Frame, c *ssa.CallCommon, args []*Val, st *State, g string, pos token.Pos) *Val {
+		n := e.sc.define("millis", "Int", sx("go_div", args[0].T, "1000000"), "(time.Duration).Milliseconds")
+		return &Val{T: n, Typ: types.Typ[types.Int64], KnownLen: -1}
+	})
+
 	// ---- rand ----
 	reg([]string{"math/rand.Intn", "math/rand.Int31n", "math/rand.Int63n"}, nil, func(e *Eng, fr *Frame, c *ssa.CallCommon, args []*Val, st *State, g string, pos token.Pos) *Val {
 		e.oblige("panic", "rand.Intn(n<=0)", e.safety(fr), pos, g, sx(">", args[0].T, "0"))
@@ -306,7 +315,7 @@ func init() {
 	for _, n := range []string{"strings.HasPrefix", "strings.HasSuffix", "strings.Contains", "strings.ToLower", "strings.TrimSpace", "strings.LastIndex", "strings.Index",
 		"(net.IP).String", "(net.IP).To4", "(net.IP).To16", "(net.IP).Equal", "net.ParseIP", "strconv.Itoa", "hash/crc32.ChecksumIEEE",
 		"(*net.IPNet).Contains", "(*net.IPNet).String", "net.JoinHostPort", "(*net.UDPAddr).String", "(*net.TCPAddr).String",
-		"(time.Duration).String", "(time.Duration).Seconds"} {
+		"(time.Duration).String"} {
 		reg([]string{n}, nil, pureUF(n))
 	}
 
